@@ -433,6 +433,21 @@ OkGridOff(c) ==
             THEN "is_filled_answers_for_the_cell_containing_the_point"
        ELSE "ok"
 
+\* VoxelGrid.strip() on a non-empty grid: the array becomes the bounding box of the filled cells, the
+\* matrix keeps its linear part, the translation becomes the centre of the first kept cell, and the
+\* filled cells stay where they were
+OkGridStrip(c) ==
+    LET D == Arr(c.data, c.shape) IN
+    IF IsEmpty(D) THEN "ok"
+    ELSE IF c.rshape # Stripped(D).shape THEN "strip_keeps_the_bounding_box_of_the_filled_cells"
+    ELSE IF c.rflat # Stripped(D).flat THEN "strip_keeps_the_values"
+    ELSE IF c.rM4 # c.M4 THEN "strip_keeps_the_linear_part_of_the_transform"
+    ELSE IF c.rt4 # Apply4(c.M4, c.t4, Lo(D)) THEN "strip_moves_the_origin_to_the_first_kept_cell"
+    ELSE IF Range(c.points4) # {Apply4(c.M4, c.t4, ix) : ix \in FilledIx(D)}
+            \/ Len(c.points4) # Cardinality(FilledIx(D)) THEN "strip_leaves_every_filled_cell_where_it_was"
+    ELSE IF c.same_object # 1 THEN "strip_mutates_and_returns_self"
+    ELSE "ok"
+
 \* the free functions of voxel.ops: pitch and origin are optional (no scaling / no shift)
 OkOpsMaps(c) ==
     LET p4 == IF c.has_pitch = 1 THEN c.pitch4 ELSE 4
@@ -455,11 +470,12 @@ OkGridBinvox(c) ==
     ELSE "ok"
 
 \* the same for a mirrored grid (negative scale): the exporter may re-orient the array, so only the
-\* shape and the world positions of the filled cells are compared
+\* shape and the world positions of the filled cells are compared; with c.hist the grid was edited in
+\* place before the export (GM / GT compose the edits)
 OkGridBinvoxPoints(c) ==
     LET D == Arr(c.data, c.shape) IN
     IF c.rshape # c.shape THEN "binvox_shape"
-    ELSE IF Range(c.rpoints4) # {Apply4(c.M4, c.t4, ix) : ix \in FilledIx(D)}
+    ELSE IF Range(c.rpoints4) # {Apply4(GM(c), GT(c), ix) : ix \in FilledIx(D)}
             \/ Len(c.rpoints4) # Cardinality(FilledIx(D)) THEN "binvox_filled_cells_keep_their_position"
     ELSE "ok"
 
@@ -504,6 +520,7 @@ Clause(c) ==
       [] c.fn = "grid_maps" -> OkGridMaps(c)
       [] c.fn = "grid_volume" -> OkGridVolume(c)
       [] c.fn = "grid_off" -> OkGridOff(c)
+      [] c.fn = "grid_strip" -> OkGridStrip(c)
       [] c.fn = "ops_maps" -> OkOpsMaps(c)
       [] c.fn = "ops_strip_array" -> OkOpsStrip(c)
       [] c.fn = "grid_binvox" -> OkGridBinvox(c)
